@@ -21,7 +21,9 @@ Definition verdict (c : case) : Z :=
   | CLine st seqid source ftype s e score strand frame a extras line impl spaced =>
     let f := F seqid source ftype s e score strand frame a extras (canon_dialect st a) in
     if wf_feature st f then
-      let printed_ok := str_eqb (feature_str to_quote f) line in
+      (* the harness's renderer, the Gallina writer [render_line] of the theorems and the model's
+         printer must agree on the line *)
+      let printed_ok := str_eqb (feature_str to_quote f) line && str_eqb (render_line st f) line in
       let model := feature_from_line isword line None true in
       let tie := match model, impl with
                  | Ok m, Ok o => fobs_matches to_quote m o
